@@ -44,7 +44,8 @@ pub(crate) enum K {
     PClosed { proto: usize, peer: usize },
     PSubOpened { proto: usize, peer: usize, out_id: Option<String> },
     PSubFailure { proto: usize, id: String },
-    PDialFailure { proto: usize },
+    PDialFailure { proto: usize, peer: usize },
+    PDialCall { proto: usize, peer: usize, ok: bool, err: String },
     POpenCall { proto: usize, peer: usize, id: Option<String>, err: String },
     PForceClose { proto: usize, peer: usize, ok: bool },
     PExit { proto: usize },
@@ -79,6 +80,7 @@ pub(crate) enum NodeCmd {
 pub(crate) enum ProbeCmd {
     Open { peer: usize, hold_ms: u64 },
     ForceClose { peer: usize },
+    Dial { peer: usize },
     Exit { unregister: bool },
 }
 
@@ -134,6 +136,10 @@ impl UserProtocol for Probe {
                             Err(e) => push(&self.log, &self.handle, node, K::POpenCall { proto: idx, peer, id: None, err: format!("{e:?}") }),
                         }
                     }
+                    Some(ProbeCmd::Dial { peer }) => {
+                        let r = service.dial(&peer_id(self.seed, peer));
+                        push(&self.log, &self.handle, node, K::PDialCall { proto: idx, peer, ok: r.is_ok(), err: r.err().map(|e| format!("{e:?}")).unwrap_or_default() });
+                    }
                     Some(ProbeCmd::ForceClose { peer }) => {
                         let r = service.force_close(peer_id(self.seed, peer));
                         push(&self.log, &self.handle, node, K::PForceClose { proto: idx, peer, ok: r.is_ok() });
@@ -182,8 +188,9 @@ impl UserProtocol for Probe {
                     Some(TransportEvent::SubstreamOpenFailure { substream, .. }) => {
                         push(&self.log, &self.handle, node, K::PSubFailure { proto: idx, id: format!("{substream:?}") });
                     }
-                    Some(TransportEvent::DialFailure { .. }) => {
-                        push(&self.log, &self.handle, node, K::PDialFailure { proto: idx });
+                    Some(TransportEvent::DialFailure { peer, .. }) => {
+                        let p = peer_index(self.seed, self.nodes_total, &peer);
+                        push(&self.log, &self.handle, node, K::PDialFailure { proto: idx, peer: p });
                     }
                 },
             }
@@ -293,9 +300,11 @@ impl ConnProp {
                 match rng.below(4) {
                     0 => ops.push(json!({"at_ms": at, "op": "dial_addr", "node": i, "to": j, "shape": "good"})),
                     1 if j <= n as u64 => {
-                        // simultaneous mutual dial
-                        ops.push(json!({"at_ms": at, "op": "dial", "node": i, "to": j}));
-                        ops.push(json!({"at_ms": at + rng.below(3), "op": "dial", "node": j, "to": i}));
+                        // simultaneous mutual dial; single-address dials keep dialing while the
+                        // inbound connection is accepted, which yields two overlapping connections
+                        let op = if rng.chance(1, 2) { "dial" } else { "dial_addr" };
+                        ops.push(json!({"at_ms": at, "op": op, "node": i, "to": j, "shape": "good"}));
+                        ops.push(json!({"at_ms": at + rng.below(3), "op": op, "node": j, "to": i, "shape": "good"}));
                     }
                     _ => ops.push(json!({"at_ms": at, "op": "dial", "node": i, "to": j})),
                 }
@@ -304,6 +313,16 @@ impl ConnProp {
                 let g = if rng.chance(1, 2) { n as u64 + 3 } else { other(rng, j) };
                 ops.push(json!({"at_ms": at, "op": "dial_addr", "node": i, "to": j, "ghost": g, "shape": *rng.pick(SHAPES)}));
             } else if r < w_dial + w_weird + w_open {
+                if rng.chance(1, 5) {
+                    // a protocol asks for the dial through its TransportService
+                    let j = match rng.below(8) {
+                        0 => n as u64 + 1,
+                        1 => n as u64 + 2,
+                        _ => other(rng, i),
+                    };
+                    ops.push(json!({"at_ms": at, "op": "pdial", "node": i, "proto": rng.below(2), "to": j}));
+                    continue;
+                }
                 let j = other(rng, i);
                 let burst = if rng.chance(1, 4) { rng.range(2, 6) } else { 1 };
                 for b in 0..burst {
@@ -380,7 +399,30 @@ impl Prop for ConnProp {
         })
     }
 
+    fn systematic(&self, tier: Tier) -> Vec<Value> {
+        if self.id != "C07" {
+            return Vec::new();
+        }
+        // component sub-check of the "protocols before the manager" clause (hook H5)
+        let n = if tier == Tier::Quick { 300 } else { 5000 };
+        let mut v = Vec::new();
+        for k in 0..n {
+            let mut rng = Rng::fork(k as u64, "c07-protocol-set");
+            v.push(json!({
+                "property": "C07", "mode": "protocol_set", "seed": 7_000_000 + k as u64,
+                "sched": SchedKind::gen(&mut rng, 200),
+                "protocols": rng.range(1, 5), "capacity": 1,
+                "reader_delay_ms": (0..5).map(|_| *rng.pick(&[0u64, 0, 1, 10, 500])).collect::<Vec<_>>(),
+                "prefill": rng.chance(3, 4),
+            }));
+        }
+        v
+    }
+
     fn run(&self, case: &Value, verbose: bool) -> RunOutput {
+        if case["mode"] == "protocol_set" {
+            return run_protocol_set(case, verbose);
+        }
         let case = case.clone();
         let my_prefix = format!("{}:", self.id.to_lowercase());
         let seed = case["seed"].as_u64().unwrap_or(0);
@@ -496,7 +538,7 @@ impl Prop for ConnProp {
                                     let _ = tx.send(NodeCmd::AddAddr { peer: j, addr: full_addr(seed, j) });
                                 }
                             }
-                            "open" | "force_close" | "probe_exit" => {
+                            "open" | "force_close" | "probe_exit" | "pdial" => {
                                 let p = o["proto"].as_u64().unwrap_or(0) as usize % 2;
                                 if o["op"] == "probe_exit" {
                                     // a node whose protocols have all shut down is outside the
@@ -511,6 +553,7 @@ impl Prop for ConnProp {
                                 let cmd = match o["op"].as_str().unwrap() {
                                     "open" => ProbeCmd::Open { peer: j.clamp(1, total), hold_ms: o["hold_ms"].as_u64().unwrap_or(0) },
                                     "force_close" => ProbeCmd::ForceClose { peer: j.clamp(1, total) },
+                                    "pdial" => ProbeCmd::Dial { peer: j.clamp(1, total) },
                                     _ => ProbeCmd::Exit { unregister: o["unregister"].as_bool().unwrap_or(false) },
                                 };
                                 let _ = tx.send(cmd);
@@ -524,14 +567,23 @@ impl Prop for ConnProp {
                     net2.clear_static_faults();
                     let now_ns = vnow().as_nanos() as u64;
                     let table = net2.conn_table();
+                    let limited = max_in.is_some() || max_out.is_some();
+                    let mut dialed_one = false;
                     for i in 1..=n {
                         for j in 1..=n {
+                            if limited && dialed_one {
+                                continue;
+                            }
                             if i == j || dead.lock().unwrap().contains_key(&i) || dead.lock().unwrap().contains_key(&j) {
                                 continue;
                             }
                             let between: Vec<_> = table.iter().filter(|c| (c.1.ip() == node_ip(i) && c.2.ip() == node_ip(j)) || (c.1.ip() == node_ip(j) && c.2.ip() == node_ip(i))).collect();
                             let all_dead_long = between.iter().all(|c| c.3.is_some_and(|d| d + 2_000_000_000 <= now_ns));
-                            if all_dead_long {
+                            // with limits only a pair of nodes without any live connection is
+                            // re-dialed: its capacity is then certainly free
+                            let idle = |x: usize| !table.iter().any(|c| c.3.is_none() && (c.1.ip() == node_ip(x) || c.2.ip() == node_ip(x)));
+                            if all_dead_long && (!limited || (idle(i) && idle(j))) {
+                                dialed_one = true;
                                 if let Some(tx) = &node_tx[i] {
                                     let _ = tx.send(NodeCmd::Dial { peer: j, fin: true });
                                 }
@@ -710,6 +762,27 @@ impl<'a> Ctx<'a> {
             }
         }
 
+        // ---------- protocol-requested dials (C05) ----------
+        if alive {
+            for (idx, r) in evs.iter().enumerate() {
+                if let K::PDialCall { proto, peer, ok: true, .. } = &r.k {
+                    if probe_exited.contains_key(proto) {
+                        continue;
+                    }
+                    let answered = evs[idx..].iter().any(|q| match &q.k {
+                        K::PEstablished { proto: p, peer: x } => p == proto && x == peer,
+                        K::PDialFailure { proto: p, peer: x } => p == proto && x == peer,
+                        // an application-level dial of the same peer may conclude the same attempt
+                        K::AppEstablished { peer: x, .. } => x == peer,
+                        _ => false,
+                    });
+                    if !answered {
+                        v.push(("c05:protocol-dial-silent".into(), format!("node {i} protocol {proto}: TransportService::dial(n{peer}) accepted at {:.3}s was followed neither by a connection with the peer nor by a dial failure", r.t as f64 / 1e9)));
+                    }
+                }
+            }
+        }
+
         // ---------- application-level connection state ----------
         let mut est_since_close: BTreeMap<usize, u32> = BTreeMap::new();
         for r in &evs {
@@ -816,10 +889,18 @@ impl<'a> Ctx<'a> {
                                 // capacity: conservative (all live connections touching a node count)
                                 let live_i = self.table.iter().filter(|c| c.3.map_or(true, |d| d > r.t) && c.4 <= r.t && (c.1.ip() == node_ip(i) || c.2.ip() == node_ip(i))).count() as u64;
                                 let live_p = self.table.iter().filter(|c| c.3.map_or(true, |d| d > r.t) && c.4 <= r.t && (c.1.ip() == node_ip(p) || c.2.ip() == node_ip(p))).count() as u64;
-                                // other final dials towards/from these nodes happen at the same time
-                                let slack = (self.n as u64) * 2;
-                                let cap_ok = self.max_out.map_or(true, |m| live_i + slack < m) && self.max_in.map_or(true, |m| live_p + slack < m) && self.max_in.map_or(true, |m| live_i + slack < m) && self.max_out.map_or(true, |m| live_p + slack < m);
-                                if !established && failed && cap_ok && self.alive(p) {
+                                // without limits capacity is always free; with limits exactly one
+                                // pair of idle nodes is re-dialed (see the final phase)
+                                let limited = self.max_in.is_some() || self.max_out.is_some();
+                                // a connection to a silently vanished host still counts at the
+                                // surviving end until it notices: no capacity claim in such runs
+                                let vanished = self.dead.values().any(|v| *v);
+                                let cap_ok = !limited || (live_i == 0 && live_p == 0 && !vanished && self.max_in != Some(0) && self.max_out != Some(0));
+                                // a dial tries the best-scored addresses only (as many as there is
+                                // free capacity): the success of the re-dial is only asserted when
+                                // the peer's real address is the only one this node was ever given
+                                let only_real = self.known.get(&(i, p)).is_some_and(|s| s.len() == 1);
+                                if !established && failed && cap_ok && only_real && self.alive(p) {
                                     v.push(("c06:final-dial-refused".into(), format!("node {i}: dial(n{p}) at {:.3}s on a healthy network with free capacity ended in a dial failure", r.t as f64 / 1e9)));
                                     let exited_any = self.log.iter().any(|q| matches!(q.k, K::PExit { .. }) && (q.node == i || q.node == p));
                                     if exited_any {
@@ -831,6 +912,8 @@ impl<'a> Ctx<'a> {
                             }
                         }
                     }
+                    // dials requested by a protocol conclude with application-level events too
+                    K::PDialCall { peer, ok: true, .. } => *accepted_calls.entry(*peer).or_insert(0) += 1,
                     K::AppEstablished { peer, listener: false, .. } => *outcomes.entry(*peer).or_insert(0) += 1,
                     K::AppDialFailure { addr } => {
                         match self.addr_peer(addr) {
@@ -928,4 +1011,96 @@ fn involves(k: &K, j: usize) -> bool {
 #[allow(dead_code)]
 fn unused(_: &dyn Fn(&PeerId) -> String) {
     let _ = short;
+}
+
+
+/// C07 component sub-check: a real `ProtocolSet` (hook H5) fans a connection-closed report out to
+/// protocol queues that may be full; the manager must not be told before every protocol has been.
+/// Queues are pre-filled to capacity by the established report, so a protocol's queue can only
+/// take the closed event after its reader has removed something: if the manager receives its
+/// event while a protocol reader has not yet dequeued anything, the manager was told first.
+fn run_protocol_set(case: &Value, verbose: bool) -> RunOutput {
+    use litep2p::verif::protocol_set::{Harness, Seen};
+    let case = case.clone();
+    let seed = case["seed"].as_u64().unwrap_or(0);
+    let sched = SchedKind::from_json(&case["sched"]);
+    run_sim(seed, sched, Duration::from_secs(60), 1_000_000, verbose, move |handle: Handle| {
+        let n = case["protocols"].as_u64().unwrap_or(2) as usize;
+        let cap = case["capacity"].as_u64().unwrap_or(1) as usize;
+        let (mut harness, queues, mut mgr) = Harness::new(peer_id(seed, 2), n, cap);
+        // how many events each protocol reader has taken so far
+        let taken: Arc<Mutex<Vec<usize>>> = Arc::new(Mutex::new(vec![0; n]));
+        let closed_seen: Arc<Mutex<Vec<bool>>> = Arc::new(Mutex::new(vec![false; n]));
+        let delays: Vec<u64> = case["reader_delay_ms"].as_array().map(|a| a.iter().map(|x| x.as_u64().unwrap_or(0)).collect()).unwrap_or_default();
+        let prefill = case["prefill"].as_bool().unwrap_or(true);
+        let filled = Arc::new(Mutex::new(false));
+        for (i, mut q) in queues.into_iter().enumerate() {
+            let taken = taken.clone();
+            let closed_seen = closed_seen.clone();
+            let d = delays.get(i).cloned().unwrap_or(0);
+            let filled = filled.clone();
+            handle.spawn(1, "protocol-reader", async move {
+                // a slow protocol: starts reading only after a delay, once the queue was filled
+                loop {
+                    tokio::time::sleep(Duration::from_millis(1)).await;
+                    if *filled.lock().unwrap() {
+                        break;
+                    }
+                }
+                tokio::time::sleep(Duration::from_millis(d)).await;
+                while let Some(ev) = q.next().await {
+                    taken.lock().unwrap()[i] += 1;
+                    if ev == Seen::Closed {
+                        closed_seen.lock().unwrap()[i] = true;
+                    }
+                }
+            });
+        }
+        {
+            let h = handle.clone();
+            let filled = filled.clone();
+            handle.spawn(1, "connection-task", async move {
+                if prefill {
+                    // fill every queue: `capacity` established reports (the first fits, the others
+                    // are what a busy connection would have queued)
+                    // (the established report may be made once per connection; capacity is 1)
+                    if harness.report_connection_established().await.is_err() {
+                        return;
+                    }
+                }
+                *filled.lock().unwrap() = true;
+                let r = harness.report_connection_closed().await;
+                h.event(format!("report_connection_closed -> {r:?}"));
+                // keep the set alive
+                tokio::time::sleep(Duration::from_secs(30)).await;
+                drop(harness);
+            });
+        }
+        {
+            let h = handle.clone();
+            let taken = taken.clone();
+            let closed_seen = closed_seen.clone();
+            handle.spawn(1, "manager-reader", async move {
+                if let Some(Seen::Closed) = mgr.next().await {
+                    let t = taken.lock().unwrap().clone();
+                    h.event(format!("manager told; protocol readers have taken {t:?} events"));
+                    if prefill {
+                        if let Some(i) = t.iter().position(|x| *x == 0) {
+                            h.violation("c07:manager-told-before-protocol", format!("the transport manager received ConnectionClosed while the (full, capacity {cap}) event queue of protocol {i} had not been read at all: that protocol cannot have been told yet"));
+                            return;
+                        }
+                    }
+                    h.probe("manager-told-after-protocols");
+                }
+                // every protocol must eventually see the close exactly once
+                tokio::time::sleep(Duration::from_secs(5)).await;
+                if closed_seen.lock().unwrap().iter().any(|c| !*c) {
+                    h.violation("c07:protocol-not-told-closed", format!("protocol set: not every protocol saw ConnectionClosed: {:?}", closed_seen.lock().unwrap()));
+                    return;
+                }
+                h.stop();
+            });
+        }
+        Box::new(|| {})
+    })
 }
